@@ -89,6 +89,8 @@ func NewActivityStreamsHandlerScheme(db Database, clock Clock, scheme string) Ha
 		if err != nil {
 			return
 		}
+		// Also those the typed removal above cannot reach.
+		stripHiddenRecipientsSerialized(m, true)
 		raw, err := json.Marshal(m)
 		if err != nil {
 			return
